@@ -1,5 +1,80 @@
-"""Design-level model checking of Tower.tla (MC_Tower.tla configs) for the tower properties."""
+"""Design-level model checking of Tower.tla (MC_Tower.tla) for the tower properties: TLC explores every behaviour of the
+environment (users, chain, free node verdicts) within the bounds below; every step is judged by the TowerProps monitors and
+the structural invariants.  A violated invariant here means the SPECIFICATION is wrong (exit 2), not the code."""
+import os
+
+from common import ToolError, log, tlc
+
+BASE = {"CACHE_N": 2, "IDX_N": 3, "IRR": 3, "RETRY_N": 2, "SLOT_SIZE": 2, "SUB_S": 2, "SUB_D": 30, "SUB_G": 1, "MAXU": 1000,
+        "Users": "{1, 2}", "Disputes": "{10}", "Variants": "{1, 2}", "Garbled": "{1}", "H0": 10,
+        "MaxBlocks": 3, "MaxOps": 3, "MaxDisc": 0, "Acts": '{"Register", "Add", "Mine"}', "Emit": "FALSE"}
 
 
-def design_stats(pid, tier):
-    return None
+def cfg(**kw):
+    c = dict(BASE)
+    c.update(kw)
+    return c
+
+
+CONFIGS = {
+    # name: (quick constants, thorough constants)
+    "MC_Breach": (cfg(MaxBlocks=3, MaxOps=3, Acts='{"Register", "Add", "Mine", "Get", "BadSig"}'),
+                  cfg(MaxBlocks=3, MaxOps=4, Disputes="{10, 20}", Acts='{"Register", "Add", "Mine", "Get", "BadSig"}')),
+    "MC_Reorg": (cfg(Users="{1}", Variants="{1}", MaxBlocks=6, MaxOps=2, MaxDisc=2, Acts='{"Register", "Add", "Mine", "Disconnect"}'),
+                 cfg(Users="{1}", Variants="{1, 2}", MaxBlocks=7, MaxOps=2, MaxDisc=3, Acts='{"Register", "Add", "Mine", "Disconnect"}')),
+    "MC_Expiry": (cfg(SUB_D=2, SUB_G=1, Variants="{1}", MaxBlocks=4, MaxOps=3, MaxDisc=1,
+                      Acts='{"Register", "Add", "Mine", "Disconnect", "Sub"}'),
+                  cfg(SUB_D=2, SUB_G=1, Variants="{1}", MaxBlocks=5, MaxOps=5, MaxDisc=1,
+                      Acts='{"Register", "Add", "Mine", "Disconnect", "Sub", "Get"}')),
+    "MC_Expiry0": (cfg(SUB_D=0, SUB_G=0, SUB_S=1, Variants="{1}", MaxBlocks=3, MaxOps=4, Acts='{"Register", "Add", "Mine", "Sub"}'),
+                   cfg(SUB_D=1, SUB_G=0, SUB_S=1, Variants="{1}", MaxBlocks=4, MaxOps=5, Acts='{"Register", "Add", "Mine", "Sub"}')),
+    "MC_Slots": (cfg(SUB_S=3, Garbled="{1, 3, 5}", MaxBlocks=2, MaxOps=4, Acts='{"Register", "Add", "Mine", "Sub"}'),
+                 cfg(SUB_S=3, Garbled="{1, 2, 3, 5}", MaxBlocks=2, MaxOps=5, Acts='{"Register", "Add", "Mine", "Sub"}')),
+    "MC_Auth": (cfg(MaxBlocks=1, MaxOps=4, SUB_D=1, Variants="{1}", Acts='{"Register", "Add", "Mine", "Get", "Sub", "BadSig"}'),
+                cfg(MaxBlocks=2, MaxOps=5, SUB_D=1, Variants="{1}", Acts='{"Register", "Add", "Mine", "Get", "Sub", "BadSig"}')),
+}
+
+BY_PROPERTY = {
+    "C01": ["MC_Breach"],
+    "C02": ["MC_Breach", "MC_Reorg"],
+    "C04": ["MC_Reorg"],
+    "C06": ["MC_Auth", "MC_Breach"],
+    "C07": ["MC_Slots", "MC_Breach"],
+    "C08": ["MC_Slots", "MC_Auth"],
+    "C09": ["MC_Expiry", "MC_Expiry0"],
+    "C11": ["MC_Breach", "MC_Reorg"],
+    "C03": ["MC_Breach"],
+    "C12": ["MC_Breach"],
+}
+
+
+def design_stats(pid, tier, workers=8):
+    wd = os.path.join("/verif/work", pid, "mc")
+    os.makedirs(wd, exist_ok=True)
+    out = {"states": 0, "transitions": 0, "configs": []}
+    for name in BY_PROPERTY.get(pid, []):
+        consts = CONFIGS[name][0 if tier == "quick" else 1]
+        r = tlc("MC_Tower", "MC_Tower.cfg", wd, workers=workers, consts=consts, timeout=2400, heap="12g")
+        if not r.ok:
+            log(r.out[-2500:])
+            raise ToolError("the specification violates %s in %s: the design as specified is wrong" % (r.violated, name))
+        out["states"] += r.distinct
+        out["transitions"] += r.generated
+        out["configs"].append({"config": name, "constants": consts, "distinct_states": r.distinct, "states_generated": r.generated,
+                               "depth": r.depth, "wall_s": round(r.wall, 1),
+                               "invariants": ["NoViolation (all TowerProps monitors on every step)", "Structure", "Conservation",
+                                              "TrackersJustified", "ReorgedSane"]})
+    return out
+
+
+if __name__ == "__main__":
+    import sys
+    import time
+    tier = sys.argv[2] if len(sys.argv) > 2 else "quick"
+    for name in (sys.argv[1].split(",") if len(sys.argv) > 1 else CONFIGS):
+        t0 = time.time()
+        consts = CONFIGS[name][0 if tier == "quick" else 1]
+        r = tlc("MC_Tower", "MC_Tower.cfg", "/verif/work/t/mcx", workers=8, consts=consts, timeout=3000, heap="12g")
+        print(name, tier, "ok" if r.ok else ("VIOLATED " + str(r.violated)), r.distinct, r.generated, r.depth, round(time.time() - t0, 1))
+        if not r.ok:
+            print(r.out[-3000:])
